@@ -190,6 +190,11 @@ func cmdRun(args []string) int {
 	os.RemoveAll(work)
 	os.MkdirAll(work, 0o755)
 	os.MkdirAll(filepath.Join(hm, "evidence"), 0o755)
+	if old, _ := filepath.Glob(filepath.Join(hm, "replays", id+"-*.json")); len(old) > 0 {
+		for _, f := range old {
+			os.Remove(f) // witnesses of earlier runs of this property
+		}
+	}
 
 	exe, _ := os.Executable()
 	raceExe := filepath.Join(filepath.Dir(exe), "vmon-race")
